@@ -437,3 +437,73 @@ pub fn tagged(b: &[u8], a: usize) -> (Vec<u8>, [u8; 3]) {
     let cut = b[ndx..ndx + 3].try_into().unwrap();
     (out, cut)
 }
+
+// ---- round 9 (bfn): `Weak<T>` = `Option T`, `for x in v.iter_mut() { *x = e }`, a user method named like a collection
+// mutator, a write through `lock().unwrap()`, a method named like a field, `impl Into<String>`, an associated constant of
+// another structure, `return Err(e)?`, `Box::new`
+pub struct Meter {
+    pub cells: Vec<u64>,
+    pub cap: u64,
+}
+
+impl Meter {
+    pub const WIDE: u64 = 1000;
+    pub fn clear(&mut self) {
+        for c in self.cells.iter_mut() {
+            *c = 0;
+        }
+    }
+    pub fn add(&mut self, i: usize, x: u64) -> bool {
+        if self.cells[i].saturating_add(x) > self.cap {
+            false
+        } else {
+            self.cells[i] += x;
+            true
+        }
+    }
+}
+
+pub struct Parent {
+    pub base: u64,
+}
+
+pub struct Gauge {
+    pub parent: std::sync::Weak<Parent>,
+    pub meter: std::sync::Mutex<Meter>,
+}
+
+impl Gauge {
+    fn parent(&self) -> std::sync::Arc<Parent> {
+        self.parent.upgrade().unwrap()
+    }
+    pub fn base_plus(&self, d: u64) -> u64 {
+        self.parent().base + d
+    }
+    pub fn feed(&self, i: usize, x: u64, manual: bool) -> bool {
+        let mut m = self.meter.lock().unwrap();
+        let ok = m.add(i, x);
+        if ok {
+            true
+        } else {
+            if manual {
+                m.clear();
+            }
+            manual
+        }
+    }
+    pub fn replace(&self, cells: Vec<u64>) -> u64 {
+        *self.meter.lock().unwrap() = Meter { cells, cap: Meter::WIDE };
+        Meter::WIDE
+    }
+}
+
+pub fn tag_into(prefix: impl Into<String>, n: u64) -> String {
+    format!("{}/{}", prefix.into(), n)
+}
+
+pub fn boxed_inc(x: u64) -> Result<Box<u64>, ()> {
+    if x == 0 {
+        return Err(())?;
+    }
+    Ok(Box::new(x + 1))
+}
